@@ -74,6 +74,17 @@ CHECKS["C15"] = dict(
     note="Coq kernel+VM; hand model tied by fault-injected trace conformance; kill = process disappears between two file-system calls; POSIX assumptions as C14",
     design="DESIGN.md 3 C15, Appendix B")
 
+CHECKS["C01"] = dict(
+    technique="Coq proof of the layout facts (row-major flattening = printed stride expression, bijective onto [0,prod); blocked layout) + independent oracle (UFL point evaluation of the original integrand, textbook push-forwards, basix tabulation) against every cell kernel of the corpus; per exported kernel the theorems of C05/C07/C08/C16/C17/C19",
+    text="The end-to-end statement (kernel = quadrature sum of the form) is decided per sampled form by differential execution against an independent oracle (agreement to ~1e-15 relative): NOT a theorem. Proved for all inputs are the index-layout lemmas; proved per exported kernel are purity/accumulation, bounds, packing, C text = AST. Partial: the front half (UFL lowering, basix, graph/factorisation) is not modelled.",
+    note="oracle (harness/oracle.py) trusted as specification; forms sampled (pinned + seeded random, explicit quadrature degrees); Coq kernel for Flatten.v",
+    design="DESIGN.md 3 C01")
+CHECKS["C02"] = dict(
+    technique="Coq proof: affine sub-entity embedding is the barycentric combination of the entity's vertices (points of the reference facet land on that facet), interior-facet macro layout bijective; oracle run of every facet/vertex kernel for ALL local entity indices with different data on the two sides",
+    text="Per sampled facet/vertex kernel every local entity index of the cell (prisms/pyramids: both facet types) is executed and compared with the independent oracle (normals, facet measures, point maps, '+'/'-' data in the macro layout). Proved: embedding and macro-layout lemmas. Partial: forms sampled; basix geometry/topology taken as data.",
+    note="oracle trusted as specification; interior facets: mirrored '-' cell with identical local numbering and permutation code 0; Coq kernel for Affine.v/Flatten.v",
+    design="DESIGN.md 3 C02")
+
 ALL = [f"C{i:02d}" for i in range(1, 21)]
 
 NOT_YET = "check not built yet in this session (work in progress; see DESIGN.md section 6 for the order of construction)"
